@@ -3233,6 +3233,56 @@ pub(crate) fn process_fulfill_attribution_data(
 	attribution_data
 }
 
+/// Add-only accessors for the external verification harness (see `ln::verif_hooks::onion`): they
+/// re-expose module-private helpers unchanged.
+#[cfg(feature = "verif_hooks")]
+pub(crate) mod verif {
+	use super::*;
+
+	/// Per-hop ECDH shared secrets exactly as `construct_onion_keys` derives them.
+	pub(crate) fn shared_secrets<T: secp256k1::Signing>(
+		secp_ctx: &Secp256k1<T>, path: &Path, session_priv: &SecretKey,
+	) -> Vec<[u8; 32]> {
+		let blinded_tail = path.blinded_tail.as_ref().and_then(|t| {
+			if !t.trampoline_hops.is_empty() {
+				return None;
+			}
+			Some(t)
+		});
+		construct_onion_keys_generic(secp_ctx, &path.hops, blinded_tail, session_priv)
+			.map(|(shared_secret, _, _, _, _)| shared_secret.secret_bytes())
+			.collect()
+	}
+
+	/// Serialized per-hop payloads (and first-hop amount / cltv) of `build_onion_payloads`.
+	pub(crate) fn payloads(
+		path: &Path, recipient_onion: &RecipientOnionFields, cur_block_height: u32,
+		keysend_preimage: &Option<PaymentPreimage>,
+	) -> Result<(Vec<Vec<u8>>, u64, u32), APIError> {
+		let (payloads, amt, cltv) = build_onion_payloads(
+			path,
+			recipient_onion,
+			cur_block_height,
+			keysend_preimage,
+			None,
+			None,
+		)?;
+		Ok((payloads.iter().map(|p| p.encode()).collect(), amt, cltv))
+	}
+
+	/// `crypt_failure_packet`
+	pub(crate) fn crypt_failure_packet(shared_secret: &[u8], packet: &mut OnionErrorPacket) {
+		super::crypt_failure_packet(shared_secret, packet)
+	}
+
+	/// `process_failure_packet`
+	pub(crate) fn process_failure_packet(
+		packet: &mut OnionErrorPacket, shared_secret: &[u8], hold_time: u32,
+	) {
+		super::process_failure_packet(packet, shared_secret, hold_time)
+	}
+}
+
 #[cfg(test)]
 mod tests {
 	use core::iter;
